@@ -75,6 +75,9 @@ type callRec struct {
 }
 
 type world struct {
+	awaitedLate         bool
+	connsBeforeFollowup int
+	connsAtEnd          int
 	kit.World
 	p      params
 	calls  []*callRec
@@ -301,6 +304,16 @@ func (w *world) main() {
 	case "connclose":
 		w.timed("Conn.Close", callTimeout, false, func(ctx context.Context) error { return w.Conn.Close(ctx) })
 	}
+	late := false
+	for _, f := range w.faults {
+		late = late || strings.HasPrefix(f, "delay@")
+	}
+	if late && api != "connclose" && vsched.Choose("followup-after-late-answer", 2) == 1 {
+		// let the delayed answer of the abandoned request arrive first, and a keep-alive round pass
+		vsched.Sleep(6*time.Second, "h:await-late-answer")
+		w.awaitedLate = true
+	}
+	w.connsBeforeFollowup = len(w.B.Conns)
 	w.Phase = "followup"
 	if api != "connclose" {
 		// the connection's dispatching must still work (after recovery, if the fault killed the link)
@@ -321,6 +334,7 @@ func (w *world) main() {
 		w.timed("final.Conn.Close", callTimeout, true, func(ctx context.Context) error { return w.Conn.Close(ctx) })
 	}
 	_ = bg
+	w.connsAtEnd = len(w.B.Conns)
 	w.B.Stop()
 	vsched.Quiesce()
 	w.Phase = "done"
@@ -395,6 +409,14 @@ func run(sc vlib.Scenario, cfg vsched.Config) (*vsched.Result, vlib.Verdict) {
 		if c.followup && c.err != nil && strings.HasPrefix(c.name, "followup.") && connected {
 			v.Fail("C08.dispatch", fmt.Sprintf("%s/%s/%s", c.name, kit.ErrKind(c.err), lastFault), "%s failed with %v after fault %s: the connection no longer serves later calls", c.name, c.err, fault)
 		}
+	}
+	// a broker that merely answers late (no message lost, every ping answered) must not cost the connection
+	onlyLate := len(w.faults) > 0
+	for _, f := range w.faults {
+		onlyLate = onlyLate && strings.HasPrefix(f, "delay@")
+	}
+	if onlyLate && res.Outcome == vsched.Completed && w.connsAtEnd > w.connsBeforeFollowup && w.connsBeforeFollowup == 1 {
+		v.Fail("C08.dispatch", fmt.Sprintf("connection-lost-after-late-answer/%s", lastFault), "after the late answer (%s) the client dropped a connection whose broker answered everything (%d incarnations at the end): the internal dispatching stopped", fault, w.connsAtEnd)
 	}
 	if res.Outcome == vsched.Completed {
 		for _, t := range res.Alive {
